@@ -23,3 +23,8 @@ theorem vector_size_table : Facts.vectorSizeTable = some ["4 => (dimensions + 1)
     "16 => dimensions * 2", "32 => dimensions * 4", "64 => dimensions * 8"] := rfl
 
 end Syzgy.Tie.Numeric
+
+namespace Syzgy.Tie.Dump
+/-- ExportJSON prints vector components in the shortest form that parses back to the same float64 -/
+theorem export_format : Facts.exportVectorLoop = some "{\n\tif j > 0 {\n\t\tfmt.Fprint(w, \", \")\n\t}\n\n\tfmt.Fprint(w, strconv.FormatFloat(v, 'g', -1, 64))\n}" := rfl
+end Syzgy.Tie.Dump
